@@ -29,6 +29,28 @@ Proof.
   rewrite IH. unfold lor_all. now rewrite Z.lor_assoc.
 Qed.
 
+Lemma nth_map_combine_seq {A B} (f : nat * A -> B) : forall (l : list A) s k d0 dflt, (k < length l)%nat ->
+  nth k (map f (combine (seq s (length l)) l)) dflt = f ((s + k)%nat, nth k l d0).
+Proof.
+  induction l as [|x l IH]; intros s k d0 dflt Hk; cbn [length] in Hk; [lia|].
+  cbn [length seq combine map]. destruct k as [|k]; cbn [nth]; [now rewrite Nat.add_0_r|].
+  rewrite (IH (S s) k d0 dflt) by lia. f_equal. f_equal. lia.
+Qed.
+
+(* the k-th assign of a Bits block *)
+Lemma inl_bits_nth a bits k dflt : (k < length bits)%nat ->
+  nth k (inl_bits a bits) dflt =
+  (whole (nth k bits (O, 0)), match bits with [_] => rid a | _ => RBit (fst a) (snd a) (RNum (Z.of_nat k)) end).
+Proof.
+  intros Hk. destruct bits as [|b0 [|b1 t]]; cbn [length] in Hk; [lia | |].
+  - assert (k = O) by lia. subst. reflexivity.
+  - unfold inl_bits. rewrite (nth_map_combine_seq _ (b0 :: b1 :: t) 0 k (O, 0) dflt Hk). reflexivity.
+Qed.
+
+Lemma div_rnd_irrelevant w rnd a b : b <> 0 ->
+  Div_propagate w rnd a b = Div_propagate w 0 a b /\ Mod_propagate w rnd a b = Mod_propagate w 0 a b.
+Proof. intros H. unfold Div_propagate, Mod_propagate. destruct (Z.eqb_spec b 0); [contradiction|]. split; reflexivity. Qed.
+
 Section S.
 Variable env : list Z.
 
@@ -123,5 +145,38 @@ Proof.
     assert (Ha : okn env a) by assumption.
     first3. match goal with |- assign_value env ?l0 ?e0 = _ => rewrite (inl_equalconst_sound env r a v Ha ltac:(lia) ltac:(lia) l0 e0 eq_refl) end.
     replace (snd r) with 1 by lia. rewrite C08_equal_constant; [reflexivity | destruct Ha; lia | exact (proj2 Ha) | unfold fits; lia].
+  - (* Div: b <> 0 by the emitter theorem; b = 0: both sides are 0 (VSem's a / 0, the leaf's rnd := 0) *)
+    assert (Ha : okn env a) by assumption. assert (Hb : okn env b) by assumption.
+    first3. destruct (Z.eq_dec (getv env (fst b)) 0) as [E|Hnz].
+    + unfold assign_value, Div_propagate. cbn [lwidth whole rid rsize rsigned arith_op shift_op fst snd andb].
+      cbn [reval arith_op]. fold (rid a) (rid b). rewrite !reval_rid by (auto; lia). rewrite E. cbn [Z.eqb]. cbv zeta.
+      replace (Z.quot (getv env (fst a)) 0) with 0 by (destruct (getv env (fst a)); reflexivity).
+      unfold vtrunc. rewrite !Z.mod_0_l by (apply Z.pow_nonzero; lia). reflexivity.
+    + apply inl_div_sound; auto. lia.
+  - (* Mod: b = 0: VSem's a % 0 = a, truncated to r *)
+    assert (Ha : okn env a) by assumption. assert (Hb : okn env b) by assumption.
+    first3. destruct (Z.eqb_spec (getv env (fst b)) 0) as [E|Hnz].
+    + unfold assign_value. cbn [lwidth whole rid rsize rsigned arith_op shift_op fst snd andb].
+      cbn [reval arith_op]. fold (rid a) (rid b). rewrite !reval_rid by (auto; lia). rewrite E.
+      replace (Z.rem (getv env (fst a)) 0) with (getv env (fst a)) by (destruct (getv env (fst a)); reflexivity).
+      rewrite vtrunc_vtrunc_le by lia. rewrite put_trunc. apply vtrunc_trunc. lia.
+    + apply inl_mod_sound; auto. lia.
+  - (* the k-th wire of a Bits block *)
+    assert (Ha : okn env a) by assumption.
+    assert (Hk : (k < length bits)%nat) by lia.
+    set (b := nth k bits (O, 0)) in *.
+    assert (Hlw : nth k (map snd bits) 0 = snd b) by (change 0 with (snd (O, 0)) at 1; apply map_nth).
+    rewrite (inl_bits_nth a bits k _ Hk). fold b.
+    do 2 eexists. split; [reflexivity|]. split; [reflexivity|]. split; [reflexivity|].
+    assert (Ewa : snd a = Z.of_nat (length bits)) by lia.
+    destruct (bits_propagate_nth (length bits) (map snd bits) (getv env (fst a)) k Hk) as [PL PM].
+    rewrite <- Ewa, Hlw in PL, PM.
+    assert (Hval : forall e, (match bits with [_] => rid a | _ => RBit (fst a) (snd a) (RNum (Z.of_nat k)) end) = e ->
+                   assign_value env (whole b) e = Wire_put (snd b) (Z.land (py_shr (getv env (fst a)) (Z.of_nat k)) 1)).
+    { intros e <-. destruct bits as [|b0 [|b1 t]]; cbn [length] in *; [lia | |].
+      - assert (k = O) by lia. subst k. cbn [nth] in b. subst b.
+        exact (inl_bits1_sound env a b0 Ha ltac:(lia) ltac:(lia) _ _ eq_refl).
+      - apply inl_bits_sound; auto; lia. }
+    rewrite (Hval _ eq_refl). destruct msb; [now rewrite PM | now rewrite PL].
 Qed.
 End S.
